@@ -35,6 +35,14 @@ var c03Keys = []c03Key{
 	{"prefix", "valid_lifetime"}, {"prefix", "preferred_lifetime"}, {"route", "lifetime"}, {"rdnss", "lifetime"}, {"dnssl", "lifetime"},
 }
 
+// Interface modes that a range check could (wrongly) be made conditional on.
+var c03Modes = []map[string]any{
+	{"unicast_only": true},
+	{"managed": true, "other_config": true},
+	{"preference": "high", "hop_limit": 0},
+	{"unicast_only": true, "max_interval": "1800s", "min_interval": "1350s"},
+}
+
 type c03Case struct {
 	Devs  []string      `json:"deviations"`
 	Doc   ref.Doc       `json:"document"`
@@ -268,7 +276,7 @@ func c03Check(c c03Case) [][2]string {
 func TestVerifC03(t *testing.T) {
 	r := ev.Begin("C03", "codec")
 	defer r.End(t)
-	r.Rule = "documents = base documents {static, wildcard} x {plain, deprecated at 4 clock readings, deprecated with a clock that advances 0.3 s / 2 s per reading across each deadline} with every duration-typed key set to each of 21 boundary strings (negative, empty, sub-second, 16/32-bit limits +-1, int64 limit, infinite, auto) one at a time (quick) and all pairs of duration keys (thorough), and the pref64 prefix set to each of 19 CIDR strings; every ACCEPTED document is built, encoded with ndp.MarshalMessage, decoded with ndp.ParseMessage and compared field by field up to truncation; non-trivial = accepted by the parser and RA generation succeeded; distinct = distinct TOML x clock"
+	r.Rule = "documents = base documents {static, wildcard} x {plain, deprecated at 4 clock readings, deprecated with a clock that advances 0.3 s / 2 s per reading across each deadline} with every duration-typed key set to each of 21 boundary strings (negative, empty, sub-second, 16/32-bit limits +-1, int64 limit, infinite, auto) one at a time, alone and in each of 4 interface modes (unicast_only, managed+other_config, preference high + hop_limit 0, unicast_only with the longest intervals) (quick) and all pairs of duration keys (thorough), and the pref64 prefix set to each of 19 CIDR strings; every ACCEPTED document is built, encoded with ndp.MarshalMessage, decoded with ndp.ParseMessage and compared field by field up to truncation; non-trivial = accepted by the parser and RA generation succeeded; distinct = distinct TOML x clock"
 	r.Assumptions = []string{"github.com/mdlayher/ndp's codec is the wire format (trusted)", "system state fixed to one for which RA generation succeeds (quantifier)"}
 
 	if r.Replay != nil {
@@ -337,6 +345,16 @@ func TestVerifC03(t *testing.T) {
 						d := c03Base(dep, wild)
 						c03Set(&d, k, v)
 						one([]string{k.Kind + "." + k.Key + "=" + v}, d, clock)
+						// The same value in every operating mode a validation rule might be
+						// conditional on.
+						for _, mode := range c03Modes {
+							d := c03Base(dep, wild)
+							for mk, mv := range mode {
+								d.Ifaces[0].Scalars[mk] = mv
+							}
+							c03Set(&d, k, v)
+							one([]string{k.Kind + "." + k.Key + "=" + v, fmt.Sprint(mode)}, d, clock)
+						}
 					}
 				}
 				if r.Thorough() {
